@@ -144,7 +144,7 @@ func AddStandardFilters(fd FilterDictionary) { //nolint: gocyclo
 		case reflect.Float32, reflect.Float64:
 			return divFloat(a, q.Float())
 		default:
-			return nil, fmt.Errorf("invalid divisor: '%v'", b)
+			return nil, fmt.Errorf("invalid divisor: '%v'", values.DeepToLiquid(b))
 		}
 	})
 	fd.AddFilter("round", func(n float64, places func(int) int) float64 {
